@@ -60,7 +60,13 @@ func c13Policy(a *refsem.Arch, variant int) *seccomp.Policy {
 	for i := len(groups); i < len(fullG); i++ {
 		fullG[i] = seccomp.SyscallGroup{Action: 0x7777}
 	}
-	p := &seccomp.Policy{DefaultAction: seccomp.ActionAllow, Syscalls: groups}
+	// variant 1 has errno as its default action: the one action whose returned value (errno|EPERM) differs from the
+	// constant the caller wrote, so a compiler that writes its defaulting back into the caller's policy shows
+	def := seccomp.ActionAllow
+	if variant == 1 {
+		def = seccomp.ActionErrno
+	}
+	p := &seccomp.Policy{DefaultAction: def, Syscalls: groups}
 	seccomp.VerifSetArch(p, a.Info)
 	return p
 }
